@@ -29,40 +29,65 @@ def leg_m_expect_violation(wd, cfg, trees, prop_names, timeout=600, tag=None):
 
 
 def leg_r(wd, binary, cfg, trees, specs, verdict, max_paths, max_len=40, test="TestReplay", extra_env=None, tag=None, only=None):
-    r = vlib.run_tlc(wd, "MCChain", cfg, workers=1, timeout=1200, env={"TREES": trees}, tag=tag)
-    vlib.tlc_must_pass(r, cfg)
-    # one graph per tree (initial states differ): cover each separately
-    by_tree = {}
-    for raw in r.edges.raw:
+    # one graph per tree (initial states differ).  The exported graph of the thorough tier is ~1 GB
+    # of JSON text: edges are spooled to one file per tree and each tree is covered separately.
+    spool = os.path.join(wd, "edges_%s" % (tag or "r"))
+    os.makedirs(spool, exist_ok=True)
+    files = {}
+    def sink(raw):
         tnum = int(re.search(r'"t":(\d+)', raw).group(1))
-        by_tree.setdefault(tnum, vlib.EdgeList()).append_raw(raw)
+        f = files.get(tnum)
+        if f is None:
+            f = files[tnum] = open(os.path.join(spool, "%d.ndjson" % tnum), "w")
+        f.write(raw); f.write("\n")
+    r = vlib.run_tlc(wd, "MCChain", cfg, workers=1, timeout=2400, env={"TREES": trees}, tag=tag, edge_sink=sink)
+    for f in files.values():
+        f.close()
+    vlib.tlc_must_pass(r, cfg)
+    by_tree = sorted(files)
     rng = random.Random(vlib.seed())
-    paths = []
-    nst = ned = cov = 0
-    for t, es in sorted(by_tree.items()):
+    nst = ned = 0
+    per_tree_cap = None if not max_paths else max(max_paths // max(len(by_tree), 1), 40)
+    full = npaths = 0
+    agg = {"evaluations": 0, "distinct": 0, "mismatches": [], "samples": [], "counts": {}, "wall": 0.0}
+    import shutil as _sh
+    for t in by_tree:
+        es = vlib.EdgeList()
+        with open(os.path.join(spool, "%d.ndjson" % t)) as f:
+            for line in f:
+                es.append_raw(line.rstrip("\n"))
         s, n = vlib.graph_stats(es)
         nst += s; ned += n
-        ps = vlib.path_cover(es, max_paths=None, rng=rng, max_len=max_len)
-        if max_paths and len(ps) > max_paths:
-            rng.shuffle(ps)
-            ps = ps[:max(max_paths // 4, 50)]      # bound memory: parsed paths are big
-        paths.extend(ps)
-    full = len(paths)
-    if max_paths and len(paths) > max_paths:
-        rng.shuffle(paths)
-        paths = paths[:max_paths]
-    cov = len({vlib.canon([e["from"], e["act"], e["to"]]) for p in paths for e in p})
-    inp = os.path.join(wd, "replay_in_%s.json" % (tag or "r"))
-    json.dump({"specs": specs, "paths": paths}, open(inp, "w"))
-    env = {"VERIF_IN": inp}
-    if extra_env:
-        env.update(extra_env)
-    res = vlib.go_run(binary, test, wd, env=env, timeout=1800, tag=(tag or "replay"))
-    os.remove(inp)
-    verdict.add_all(res["mismatches"])
-    log("  R: %s graph %d states / %d edges over %d trees; %d of %d cover paths replayed (%d edges), %d steps, %d mismatches, %.1fs" %
-        (cfg, nst, ned, len(by_tree), len(paths), full, cov, res["evaluations"], len(res["mismatches"]), res["wall"]))
-    return dict(states=nst, edges=ned, paths=len(paths), cover_paths=full, covered=cov, steps=res["evaluations"],
+        ps = vlib.path_cover(es, max_paths=per_tree_cap, rng=rng, max_len=max_len, raw_out=True)
+        del es
+        npaths += len(ps)
+        # the replay input is assembled from the raw edge text (never parsed in Python)
+        inp = os.path.join(wd, "replay_in_%s.json" % (tag or "r"))
+        with open(inp, "w") as f:
+            f.write('{"specs":' + json.dumps(specs) + ',"paths":[')
+            f.write(",".join("[" + ",".join(p) + "]" for p in ps))
+            f.write("]}")
+        del ps
+        env = {"VERIF_IN": inp}
+        if extra_env:
+            env.update(extra_env)
+        res = vlib.go_run(binary, test, wd, env=env, timeout=1800, tag=(tag or "replay"))
+        os.remove(inp)
+        verdict.add_all(res["mismatches"])
+        agg["evaluations"] += res["evaluations"]; agg["distinct"] += res["distinct"]; agg["wall"] += res["wall"]
+        agg["mismatches"] += res["mismatches"]
+        if not agg["samples"]:
+            agg["samples"] = res["samples"]
+        for k, v in res.get("counts", {}).items():
+            if k != "trees":
+                agg["counts"][k] = agg["counts"].get(k, 0) + v
+    _sh.rmtree(spool, ignore_errors=True)
+    res = agg
+    cov = agg["counts"].get("edges_replayed", 0)
+    full = agg["counts"].get("paths", npaths)
+    log("  R: %s graph %d states / %d edges over %d trees; %d cover paths replayed%s, %d steps, %d mismatches, %.1fs" %
+        (cfg, nst, ned, len(by_tree), npaths, " (sampled: %d per tree)" % per_tree_cap if per_tree_cap else " (full edge cover)", res["evaluations"], len(res["mismatches"]), res["wall"]))
+    return dict(states=nst, edges=ned, paths=npaths, cover_paths=npaths, covered=(ned if not per_tree_cap else None), steps=res["evaluations"],
                 distinct=res["distinct"], samples=res["samples"], counts=res.get("counts", {}), tlc=r)
 
 
